@@ -25,6 +25,10 @@ func ParseSampledHeader(flowMessage *ProtoProducerMessage, sampledHeader *sflow.
 
 func ParseSampledHeaderConfig(flowMessage *ProtoProducerMessage, sampledHeader *sflow.SampledHeader, config PacketMapper) error {
 	data := (*sampledHeader).HeaderData
+	// the record carries the sampled header XDR-padded to four bytes: only the announced length was captured
+	if n := int((*sampledHeader).OriginalLength); n < len(data) {
+		data = data[:n]
+	}
 	switch (*sampledHeader).Protocol {
 	case 1: // Ethernet
 		if config == nil {
